@@ -21,6 +21,22 @@ func init() {
 	extraOps["analyze"] = opAnalyze
 	extraOps["lsp"] = opLsp
 	extraOps["parse"] = opParse
+	extraOps["show"] = opShow
+}
+
+// Range.ShowOnSource on an arbitrary range (c.Positions = [[startLine, startChar], [endLine, endChar]])
+func opShow(c *ExecCase) map[string]any {
+	res := map[string]any{"id": c.ID}
+	if len(c.Positions) != 2 {
+		res["harnessError"] = "show needs two positions"
+		return res
+	}
+	r := parser.Range{Start: parser.Position{Line: c.Positions[0][0], Character: c.Positions[0][1]},
+		End: parser.Position{Line: c.Positions[1][0], Character: c.Positions[1][1]}}
+	if p := safely(func() { res["out"] = r.ShowOnSource(c.Script) }); p != "" {
+		res["panic"] = p
+	}
+	return res
 }
 
 func diagPayload(k analysis.DiagnosticKind) []string {
